@@ -621,6 +621,34 @@ def r08_5_key_texts(ctx, rid='R08.5'):
     r.done()
 
 
+def r08_17_resolver_end_anchor(ctx, rid='R08.17'):
+    """strip_tags re-resolves every scalar with a non-core tag as if it were plain - also block scalars, whose text ends in a
+    newline.  `$` matches before a final newline, so with patterns that end in `$` the text 'true\n' resolves to bool (and PyYAML's
+    bool constructor has no such key: KeyError), '1.5\n' to float.  Plain scalars cannot end in a newline, so C09 is not concerned;
+    C08 is."""
+    P = ctx.P
+    r = ctx.rule(rid, 'the resolver patterns yatiml installs cannot match a text with a trailing newline (they end in \\Z, or no scalar '
+                      'with such a text is ever re-resolved)', floor=1)
+    m = P.modules['yatiml.loader']
+    pats = []
+    for n in ast.walk(m.tree):
+        if isinstance(n, ast.Call) and norm(n.func) in ('re.compile', 'compile') and n.args:
+            v = S._const_concat(n.args[0]) if hasattr(S, '_const_concat') else const_str(n.args[0])
+            if v is not None:
+                pats.append((n, v))
+    if not pats:
+        r.ok('no literal resolver pattern in yatiml.loader (C09 decides what the table contains)')
+    for n, v in pats:
+        body = v.rstrip()
+        kind = 'bool' if 'true' in v else 'float' if 'inf' in v or '[0-9]' in v or '\\d' in v else 'other'
+        ends_z = body.endswith('\\Z') or body.endswith('\\Z)')
+        r.check(ends_z or not body.endswith('$'), 'the %s pattern does not end in `$`' % kind, 'yatiml.loader:resolver-pattern-dollar:%s' % kind,
+                '%s:%d' % (m.path, n.lineno), 'the %s resolver pattern ends in `$`, which also matches before a trailing newline: a block scalar '
+                'with a non-core tag below Any (`!x |` + `true`) is re-resolved by strip_tags from the text \'true\\n\', gets the %s tag, and '
+                'PyYAML\'s constructor then fails (bool: KeyError) - an exception that is neither RecognitionError nor a YAML error' % (kind, kind))
+    r.done()
+
+
 def r08_16_format_templates(ctx, rid='R08.16'):
     """str.format interprets its receiver: `{`/`}` in it are replacement fields.  A receiver that contains text from the document or
     from a user's exception therefore raises KeyError / IndexError / ValueError while an error message is being made - the load
